@@ -72,6 +72,8 @@ type vLog struct {
 	wsDrop    int // "rate limiting aggregate reports"
 	wsStart   int // "linting workspace: ..."
 	wsDone    int // "linting workspace done"
+	wsCfg     int // workspace runs started for a "config file changed" / "config file dropped" job
+	cfgFail   int // config reloads that the config worker abandoned (no workspace job follows)
 	lines     []string
 	keep      bool
 	lastWrite time.Time
@@ -92,12 +94,19 @@ func (v *vLog) Write(p []byte) (int, error) {
 		v.fileStart++
 	case strings.HasPrefix(s, "failed to update module for "), strings.HasPrefix(s, "failed to update file diagnostics: "):
 		v.fileFail++
+	case strings.HasPrefix(s, "failed to open config file: "), strings.HasPrefix(s, "failed to reload config: "),
+		strings.HasPrefix(s, "failed to load config: "), strings.HasPrefix(s, "failed to load capabilities for URL "):
+		v.cfgFail++
 	case s == "rate limiting aggregate reports":
 		v.wsDrop++
 	case s == "linting workspace done":
 		v.wsDone++
 	case strings.HasPrefix(s, "linting workspace: "):
 		v.wsStart++
+
+		if strings.Contains(s, `Reason:"config file `) {
+			v.wsCfg++
+		}
 	}
 
 	if v.keep {
@@ -109,13 +118,13 @@ func (v *vLog) Write(p []byte) (int, error) {
 	return len(p), nil
 }
 
-type vCounters struct{ FileStart, FileDone, FileFail, WsDrop, WsStart, WsDone int }
+type vCounters struct{ FileStart, FileDone, FileFail, WsDrop, WsStart, WsDone, WsCfg, CfgFail int }
 
 func (v *vLog) snapshot() vCounters {
 	v.mu.Lock()
 	defer v.mu.Unlock()
 
-	return vCounters{v.fileStart, v.fileDone, v.fileFail, v.wsDrop, v.wsStart, v.wsDone}
+	return vCounters{v.fileStart, v.fileDone, v.fileFail, v.wsDrop, v.wsStart, v.wsDone, v.wsCfg, v.cfgFail}
 }
 
 func (v *vLog) last() time.Time {
@@ -154,9 +163,11 @@ type vSrv struct {
 
 	// number of workspace jobs that were enqueued by something else than a finished file job
 	// (initialize, initialized, config events, didChangeWatchedFiles); maintained by the driver.
+	workers     sync.WaitGroup
 	wsOther     int
 	inexact     bool
 	noAnchor    bool
+	cfgEvents   int // config events injected so far
 	stableWaits int // number of times quiescence was established by the stability fallback
 }
 
@@ -164,7 +175,7 @@ const (
 	vAnchorName   = "zz_anchor.rego"
 	vAnchorText   = "package zz_anchor\n\nanchored := true\n"
 	vSentinelName = "zz_verif_sentinel_not_in_cache.rego"
-	vCallTimeout  = 240 * time.Second
+	vCallTimeout  = 900 * time.Second
 )
 
 var vStableWindow = 2 * time.Second
@@ -200,12 +211,18 @@ func vNewServer(files map[string]string, keepLog bool) (*vSrv, error) {
 
 	s.ls = NewLanguageServer(ctx, &LanguageServerOptions{LogWriter: s.log, LogLevel: log.LevelDebug})
 
-	go s.ls.StartDiagnosticsWorker(ctx)
-	go s.ls.StartHoverWorker(ctx)
-	go s.ls.StartCommandWorker(ctx)
-	go s.ls.StartConfigWorker(ctx)
-	go s.ls.StartWorkspaceStateWorker(ctx)
-	go s.ls.StartTemplateWorker(ctx)
+	for _, w := range []func(context.Context){
+		s.ls.StartDiagnosticsWorker, s.ls.StartHoverWorker, s.ls.StartCommandWorker, s.ls.StartConfigWorker,
+		s.ls.StartWorkspaceStateWorker, s.ls.StartTemplateWorker,
+	} {
+		s.workers.Add(1)
+
+		go func() {
+			defer s.workers.Done()
+
+			w(ctx)
+		}()
+	}
 
 	a, b := net.Pipe()
 
@@ -247,7 +264,21 @@ func (s *vSrv) initialize() error {
 func (s *vSrv) close() {
 	s.cancel()
 	_ = s.conn.Close()
-	_ = os.RemoveAll(s.dir)
+
+	// the workers still touch the workspace directory until they have noticed the cancellation
+	done := make(chan struct{})
+
+	go func() {
+		s.workers.Wait()
+		close(done)
+	}()
+
+	select {
+	case <-done:
+		_ = os.RemoveAll(s.dir)
+	case <-time.After(120 * time.Second):
+		// left for the driver's cleanup of its temporary directory
+	}
 }
 
 func (s *vSrv) clientHandle(_ context.Context, _ *jsonrpc2.Conn, req *jsonrpc2.Request) (any, error) {
@@ -369,13 +400,13 @@ func (s *vSrv) waitIdle(timeout time.Duration) error {
 		balanced := len(s.ls.lintFileJobs) == 0 && len(s.ls.lintWorkspaceJobs) == 0 &&
 			c.FileStart == c.FileDone+c.FileFail && c.WsStart == c.WsDone
 
-		if balanced && !s.inexact && c.WsDrop+c.WsStart == enq {
+		if balanced && !s.inexact && c.WsDrop+c.WsStart == enq-c.CfgFail {
 			// notifications are written to the pipe synchronously, but the client handler runs on
 			// the client's read loop: flush it
 			return s.barrier()
 		}
 
-		if c.WsDrop+c.WsStart > enq {
+		if c.WsDrop+c.WsStart > enq-c.CfgFail {
 			s.inexact = true // the code under test enqueues more than the model of it: accounting is off
 		}
 
@@ -385,11 +416,13 @@ func (s *vSrv) waitIdle(timeout time.Duration) error {
 			balanced = true
 		}
 
-		if balanced && time.Since(s.log.last()) > vStableWindow {
+		// the config worker works silently (reading the file, determining the enabled rules) before it
+		// enqueues its job, which is never rate limited: while one is outstanding only the accounting counts
+		if balanced && c.WsCfg+c.CfgFail >= s.cfgEvents && time.Since(s.log.last()) > vStableWindow {
 			s.stableWaits++
 
-			if c.WsDrop+c.WsStart != enq {
-				s.wsOther += c.WsDrop + c.WsStart - enq // resynchronise the accounting
+			if c.WsDrop+c.WsStart != enq-c.CfgFail {
+				s.wsOther += c.WsDrop + c.WsStart - (enq - c.CfgFail) // resynchronise the accounting
 			}
 
 			return s.barrier()
@@ -685,12 +718,14 @@ func (s *vSrv) deliver(e vEvent, w *vWorld, sync bool) error {
 
 		s.ls.configWatcher.Reload <- cp
 		s.wsOther++
+		s.cfgEvents++
 
 		return nil
 	case "configdrop":
 		_ = os.Remove(filepath.Join(s.dir, ".regal", "config.yaml"))
 		s.ls.configWatcher.Drop <- struct{}{}
 		s.wsOther++
+		s.cfgEvents++
 
 		return nil
 	}
@@ -729,7 +764,7 @@ type vCheckpoint struct {
 	Fresh     map[string][]string `json:"fresh"`
 }
 
-const vIdleTimeout = 300 * time.Second
+const vIdleTimeout = 900 * time.Second
 
 func vRunHistory(job vRun, keepLog bool) (res vRun) {
 	t0 := time.Now()
